@@ -17,6 +17,7 @@ Section Run.
   | OMul (i : nat) (f : T)
   | OZero (i : nat)
   | OCopy (i : nat)
+  | OHash (i : nat)            (* hash(pool[i]) must not raise *)
   | OSnapAll.
 
   Definition dummy : agg := Leaf (LCount TId) no_quantity (leaf_zero (LCount TId)).
@@ -40,7 +41,7 @@ Section Run.
     | OAdd i j =>
         match add (get p i) (get p j) with
         | Ok c => (p ++ [c], 0 :: snap c)
-        | Err => (p, [1])
+        | Err => (p ++ [dummy], [1])    (* keep pool indexes stable: an empty Count is pushed *)
         end
     | OIAdd i j =>
         let '(a', r) := iadd (get p i) (get p j) in
@@ -48,10 +49,11 @@ Section Run.
     | OMul i f =>
         match mul (get p i) f with
         | Ok c => (p ++ [c], 0 :: snap c)
-        | Err => (p, [1])
+        | Err => (p ++ [dummy], [1])
         end
     | OZero i => let c := zero (get p i) in (p ++ [c], 0 :: snap c)
     | OCopy i => let c := copy (get p i) in (p ++ [c], 0 :: snap c)
+    | OHash i => (p, [if hashable (get p i) then 0 else 1])
     | OSnapAll => (p, List.concat (map (fun a => 7777 :: snap a) p))
     end.
 
